@@ -23,7 +23,7 @@ fn piece_strategy(exclude: &[String]) -> impl Strategy<Value = Piece> {
     let doc = prop_oneof![
         3 => Just(None),
         3 => proptest::collection::vec(0..DOC_LINES.len(), 1..4).prop_map(|v| Some(v.into_iter().map(|i| DOC_LINES[i].to_string()).collect::<Vec<_>>())),
-        1 => Just(Some(vec!["\n * block doc\n * second line\n ".to_string()])),
+        2 => (0..RAW_BLOCK_DOCS.len()).prop_map(|i| Some(vec![RAW_BLOCK_DOCS[i].to_string()])),
         1 => Just(Some(vec![if allow_blank { "\n * block with blank\n\n * second line\n ".to_string() } else { "\n * block without blank\n * second line\n ".to_string() }])),
     ];
     let body = (0..BODIES.len() + 2).prop_map(move |i| {
